@@ -114,14 +114,25 @@ pub fn expected(bytes: &[u8]) -> (Exp, &'static str) {
             if av[0] != 8 {
                 unsupported = true;
             } else {
-                if dv.len() != 1 {
+                if dv.is_empty() {
                     return (Exp::DontCare, "payload-digest-count-not-1");
                 }
                 present += 1;
-                if dv[0].eq_ignore_ascii_case(d.sha256_payload.as_bytes()) && dv[0] != d.sha256_payload.as_bytes() {
+                if dv.iter().any(|x| x.eq_ignore_ascii_case(d.sha256_payload.as_bytes()) && x != d.sha256_payload.as_bytes()) {
                     return (Exp::DontCare, "upper-case-hex");
                 }
-                mismatch |= dv[0] != d.sha256_payload.as_bytes();
+                if dv.len() > 1 {
+                    // several strings: whether "the recorded digest" is the first or all of them is open,
+                    // but a wrong FIRST string is a mismatch under either reading, and all-right is a match
+                    let first_wrong = dv[0] != d.sha256_payload.as_bytes();
+                    let all_right = dv.iter().all(|x| x == d.sha256_payload.as_bytes());
+                    if !first_wrong && !all_right {
+                        return (Exp::DontCare, "payload-digest-count-not-1");
+                    }
+                    mismatch |= first_wrong;
+                } else {
+                    mismatch |= dv[0] != d.sha256_payload.as_bytes();
+                }
             }
         }
         _ => return (Exp::DontCare, "payload-digest-without-algorithm-or-vice-versa"),
@@ -202,10 +213,20 @@ fn synthesise(rng: &mut Rng, thorough: bool) -> Vec<(String, Vec<u8>)> {
         }
         pvars.push(("payload-count0".into(), Some((vec![], Some(8)))));
         pvars.push(("payload-count2".into(), Some((vec![pd.clone(), pd.clone()], Some(8)))));
+        pvars.push(("payload-count2-first-wrong".into(), Some((vec![wrong_hex(&pd, 0), pd.clone()], Some(8)))));
+        pvars.push(("payload-count3-first-wrong".into(), Some((vec![wrong_hex(&pd, 2), pd.clone(), pd.clone()], Some(8)))));
+        pvars.push(("payload-count2-second-wrong".into(), Some((vec![pd.clone(), wrong_hex(&pd, 0)], Some(8)))));
         pvars.push(("payload-count0-unknown-algo".into(), Some((vec![], Some(99)))));
         pvars.push(("payload-no-algo".into(), Some((vec![pd.clone()], None))));
         for (plabel, pv) in &pvars {
             let mut items: Vec<(u32, Val)> = vec![(tag::NAME, Val::str("digests")), (tag::VERSION, Val::str("1")), (tag::RELEASE, Val::str("1")), (tag::ARCH, Val::str("noarch"))];
+            // entries of the rarer data types (the digests are taken over the header as it is stored)
+            if pi != 0 {
+                items.push((1200, Val::Char(b"abcd".to_vec())));
+                items.push((1201, Val::Int8(vec![1, 2, 3])));
+                items.push((1202, Val::Int16(vec![7, 8])));
+                items.push((1203, Val::Int64(vec![u64::MAX])));
+            }
             if let Some((digs, algo)) = pv {
                 items.push((tag::PAYLOADDIGEST, Val::StrArray(digs.iter().map(|s| s.as_bytes().to_vec()).collect())));
                 if let Some(a) = algo {
